@@ -19,6 +19,7 @@ import (
 	"testing"
 	"time"
 
+	"github.com/hashicorp/raft"
 	"github.com/rqlite/rqlite/v10/db"
 	"github.com/rqlite/rqlite/v10/snapshot"
 )
@@ -33,6 +34,16 @@ type c04Env struct {
 	stale   bool // a staged WAL existed when the base database changed
 	rep     *vfReport
 	dead    bool
+	lvl     string // "" = current source; "@1" … an older model level (experiments)
+	pend    raftFSMSnapshot
+	pendIdx uint64
+	pendTerm uint64
+	loadDuringPersist bool
+}
+
+type raftFSMSnapshot interface {
+	Persist(sink raft.SnapshotSink) error
+	Release()
 }
 
 func (e *c04Env) emit(op, res string) { e.ops = append(e.ops, op); e.impl = append(e.impl, res) }
@@ -168,6 +179,60 @@ func (e *c04Env) do(op string, r *vfRng) {
 		}
 		e.emit("noop", "ok")
 		e.hist = append(e.hist, "noop")
+	case op == "snapbegin":
+		// FSM.Snapshot() as raft's FSM goroutine calls it; Persist/Close happen later (snapend)
+		if e.pend != nil {
+			e.t.Fatal("harness: snapbegin while a snapshot is pending")
+		}
+		fb, ib := s.numFullSnapshots, s.numIncSnapshots.Load()
+		if dn, _ := s.snapshotDueNext(); dn == snapshot.Full {
+			e.noteBaseChange()
+		}
+		idx, term := s.raft.AppliedIndex(), s.raft.CurrentTerm()
+		f, err := NewFSM(s).Snapshot()
+		res := ""
+		if err == ErrNoWALToSnapshot {
+			res = "nowal"
+		} else if err != nil {
+			res = "err " + err.Error()
+		} else {
+			e.pend, e.pendIdx, e.pendTerm = f, idx, term
+			res = e.snapKind(fb, ib)
+		}
+		e.emit("snapbegin"+e.lvl, res)
+		e.hist = append(e.hist, "FSM.Snapshot():"+res)
+	case strings.HasPrefix(op, "snapend "):
+		outcome := strings.TrimPrefix(op, "snapend ")
+		if e.pend == nil {
+			e.emit(op, "nopending")
+			break
+		}
+		res := "not-installed"
+		switch outcome {
+		case "ok":
+			// what raft's takeSnapshot does after FSM.Snapshot(): create the sink, Persist, Close
+			cf := s.raft.GetConfiguration()
+			if err := cf.Error(); err != nil {
+				e.t.Fatal(err)
+			}
+			sink, err := s.snapshotStore.Create(1, e.pendIdx, e.pendTerm, cf.Configuration(), 1, nil)
+			if err != nil {
+				e.t.Fatalf("snapend: create sink: %v", err)
+			}
+			if err := e.pend.Persist(sink); err != nil {
+				sink.Cancel()
+			} else if err := sink.Close(); err == nil {
+				res = "installed"
+			}
+		case "failbefore":
+			if perr := e.pend.Persist(&mockSnapshotSink{nil, fmt.Errorf("verif: sink write error"), nil}); perr == nil {
+				e.t.Fatal("mock sink did not fail")
+			}
+		}
+		e.pend.Release()
+		e.pend = nil
+		e.emit(op, res)
+		e.hist = append(e.hist, "Persist+Close("+outcome+"):"+res)
 	case strings.HasPrefix(op, "snap "):
 		outcome := strings.TrimPrefix(op, "snap ")
 		fb, ib := s.numFullSnapshots, s.numIncSnapshots.Load()
@@ -204,11 +269,14 @@ func (e *c04Env) do(op string, r *vfRng) {
 				res = e.snapKind(fb, ib) + "-not-installed"
 			}
 		}
-		e.emit(op, res)
+		e.emit("snap"+e.lvl+" "+outcome, res)
 		e.hist = append(e.hist, "snapshot("+outcome+"):"+res)
 	case op == "load":
 		e.nextID++
 		e.noteBaseChange()
+		if e.pend != nil {
+			e.loadDuringPersist = true
+		}
 		p := e.mkLoadFile(e.nextID, false)
 		if err := s.Load(context.Background(), loadRequestFromFile(p)); err != nil {
 			e.t.Fatalf("load: %v", err)
@@ -227,7 +295,7 @@ func (e *c04Env) do(op string, r *vfRng) {
 		if err != nil {
 			e.t.Fatalf("boot: %v", err)
 		}
-		e.emit(fmt.Sprintf("boot %d", e.nextID), "ok")
+		e.emit(fmt.Sprintf("boot%s %d", e.lvl, e.nextID), "ok")
 		e.hist = append(e.hist, "boot")
 	case op == "install":
 		// what raft's installSnapshot does on a follower: stream the leader's snapshot into a sink of
@@ -265,7 +333,7 @@ func (e *c04Env) do(op string, r *vfRng) {
 		if err := NewFSM(s).Restore(rc); err != nil {
 			e.t.Fatalf("install: restore: %v", err)
 		}
-		e.emit(fmt.Sprintf("install %d", e.nextID), "ok")
+		e.emit(fmt.Sprintf("install%s %d", e.lvl, e.nextID), "ok")
 		e.hist = append(e.hist, "install")
 	case op == "reap":
 		if _, _, err := s.snapshotStore.Reap(); err != nil {
@@ -276,6 +344,10 @@ func (e *c04Env) do(op string, r *vfRng) {
 		}
 		e.hist = append(e.hist, "reap")
 	case op == "restart":
+		if e.pend != nil {
+			e.pend.Release()
+			e.pend = nil
+		}
 		before := e.fullContent()
 		if err := s.Close(true); err != nil {
 			e.t.Fatalf("close: %v", err)
@@ -287,6 +359,8 @@ func (e *c04Env) do(op string, r *vfRng) {
 		sig := ""
 		if e.stale {
 			sig = ":staged-wal-survived-base-change"
+		} else if e.loadDuringPersist {
+			sig = ":load-applied-while-snapshot-persisted"
 		}
 		if err := s.Open(); err != nil {
 			e.emit("restart", "corrupt")
@@ -297,16 +371,9 @@ func (e *c04Env) do(op string, r *vfRng) {
 		if _, err := s.WaitForLeader(15 * time.Second); err != nil {
 			e.t.Fatalf("no leader after restart: %v (history %v)", err, e.hist)
 		}
-		// wait until raft has replayed the whole log (the new leader's no-op is the last entry)
-		deadline := time.Now().Add(20 * time.Second)
-		stable := 0
-		for time.Now().Before(deadline) && stable < 3 {
-			if s.raft.AppliedIndex() == s.raft.LastIndex() {
-				stable++
-			} else {
-				stable = 0
-			}
-			time.Sleep(50 * time.Millisecond)
+		// wait until the FSM has applied the whole replayed log
+		if err := s.raft.Barrier(30 * time.Second).Error(); err != nil {
+			e.t.Fatalf("barrier after restart: %v", err)
 		}
 		e.emit("restart", "ok")
 		after := e.fullContent()
@@ -333,7 +400,7 @@ func c04NewEnv(t *testing.T, rep *vfReport) *c04Env {
 	if _, err := s.WaitForLeader(15 * time.Second); err != nil {
 		t.Fatalf("leader: %v", err)
 	}
-	e := &c04Env{t: t, s: s, rep: rep}
+	e := &c04Env{t: t, s: s, rep: rep, lvl: os.Getenv("VERIF_C04_LVL")}
 	e.emit("reset", "ok")
 	mustExecute(t, s, []string{"CREATE TABLE t (id INTEGER PRIMARY KEY, v TEXT)", "CREATE TABLE bulk (k INTEGER PRIMARY KEY, pad TEXT)"})
 	e.emit("noop", "ok")
@@ -351,8 +418,18 @@ func TestVerifC04(t *testing.T) {
 			if e.dead {
 				break
 			}
+			if e.pend != nil && (op == "boot" || op == "install" || op == "snapbegin" || strings.HasPrefix(op, "snap ")) {
+				continue // raft takes one snapshot at a time; boot/install are not mixed with one in flight here
+			}
+			if e.pend == nil && strings.HasPrefix(op, "snapend ") {
+				continue
+			}
 			e.do(op, r)
 			e.observe()
+		}
+		if e.pend != nil {
+			e.pend.Release()
+			e.pend = nil
 		}
 		if !e.dead {
 			e.s.Close(true)
@@ -386,7 +463,11 @@ func TestVerifC04(t *testing.T) {
 	// write; snapshot; restart
 	run([]string{"write", "snap ok", "bigwrite", "bigwrite", "snap notinvoked", "load", "bigwrite", "snap ok", "write", "snap ok", "restart"})
 	run([]string{"write", "snap ok", "bigwrite", "snap failbefore", "install", "bigwrite", "snap ok", "restart", "write", "snap ok", "restart"})
-	nSeq := vfScale(6, 120)
+	// a load applied between FSM.Snapshot() and Persist/Close of a full snapshot (raft allows it);
+	// then a full snapshot that is not persisted; then an ordinary snapshot
+	run([]string{"write", "snapbegin", "load", "snapend ok", "bigwrite", "snapbegin", "snapend notinvoked", "bigwrite", "snap ok", "restart"})
+	run([]string{"write", "snap ok", "bigwrite", "snapbegin", "load", "snapend ok", "bigwrite", "snap ok", "bigwrite", "snap ok", "restart"})
+	nSeq := vfScale(5, 120)
 	for i := 0; i < nSeq; i++ {
 		n := vfScale(8, 12) + r.Intn(vfScale(9, 29))
 		ops := []string{"write", "snap ok"}
@@ -400,8 +481,10 @@ func TestVerifC04(t *testing.T) {
 				ops = append(ops, "noop")
 			case c < 10:
 				ops = append(ops, "write", "snap ok")
-			case c < 12:
+			case c < 11:
 				ops = append(ops, "bigwrite", "snap notinvoked")
+			case c < 12:
+				ops = append(ops, "bigwrite", "snapbegin", []string{"write", "load", "bigwrite", "noop"}[r.Intn(4)], "snapend "+[]string{"ok", "ok", "notinvoked", "failbefore"}[r.Intn(4)])
 			case c < 13:
 				ops = append(ops, "write", "snap failbefore")
 			case c < 14:
